@@ -533,3 +533,21 @@ pub fn fits(p: &Program, a: &Analysis, sigs: &[Sig]) -> Result<(), String> {
     }
     Ok(())
 }
+
+/// Names bound by a `let` inside a `while` body: in scope for the parser from there on, but
+/// unassigned at run time if the body never runs.
+pub fn names_let_in_while(p: &Program) -> Vec<String> {
+    fn go(b: &[Stmt], in_while: bool, out: &mut Vec<String>) {
+        for s in b {
+            match s {
+                Stmt::Let(n, _) if in_while && !out.contains(n) => out.push(n.clone()),
+                Stmt::While(_, inner) => go(inner, true, out),
+                Stmt::Loop(_, _, inner) => go(inner, in_while, out),
+                _ => {}
+            }
+        }
+    }
+    let mut v = vec![];
+    go(&p.stmts, false, &mut v);
+    v
+}
